@@ -214,3 +214,64 @@ func multisigZeroCase(r *sim.Rng, n *sim.FNode, acc *msAccount, cw *sim.CaseWrit
 	st.TxCases["auth:multisig-threshold-zero-key-one-member"]++
 	st.TxOutcome[fmt.Sprintf("auth:multisig-threshold-zero-key-one-member:executed=%v", executed)]++
 }
+
+// multisigReorderWitness replays the KNOWN finding `multisig-approval-executed-again`: the signature of a transaction does not cover
+// Signature.PublicKey, replay protection keys on the hash of the whole transaction, and a multi-signature ACCOUNT (address = hash of
+// the SORTED member keys and the threshold) has many serialized keys (member order and bitmap are kept as presented). The members'
+// signature shares do not depend on the order: whoever aggregates them builds several (PublicKey, Signature) pairs for the one
+// approved content; each has another transaction hash and executes.
+func multisigReorderWitness(r *sim.Rng, n *sim.FNode, acc *msAccount) {
+	n.Enter()
+	msg := &fsm.MessageSend{FromAddress: acc.addr, ToAddress: sim.BLSKey(7).Addr, Amount: 1000}
+	a, e := lib.NewAny(msg)
+	if e != nil {
+		return
+	}
+	tx := &lib.Transaction{MessageType: fsm.MessageSendName, Msg: a, CreatedHeight: n.FSM.Height(), Time: uint64(1_700_000_000_000_000 + r.Intn(1_000_000_000)), Fee: 10000,
+		NetworkId: uint64(n.Config.NetworkID), ChainId: n.Config.ChainId}
+	sb, e := tx.GetSignBytes()
+	if e != nil {
+		return
+	}
+	build := func(order []int) []byte {
+		mk, err := msKey(order, acc.threshold)
+		if err != nil {
+			return nil
+		}
+		// members acc.members[0] and acc.members[1] approve; their positions in this ordering of the key
+		for pos, m := range order {
+			if m == acc.members[0] || m == acc.members[1] {
+				if err := mk.AddSigner(sim.BLSKey(m).Priv.Sign(sb), pos); err != nil {
+					return nil
+				}
+			}
+		}
+		agg, err := mk.AggregateSignatures()
+		if err != nil {
+			return nil
+		}
+		t := *tx
+		t.Signature = &lib.Signature{PublicKey: mk.Bytes(), Signature: agg}
+		bz, err2 := lib.Marshal(&t)
+		if err2 != nil {
+			return nil
+		}
+		return bz
+	}
+	m := acc.members
+	t1, t2 := build([]int{m[0], m[1], m[2]}), build([]int{m[1], m[0], m[2]})
+	if t1 == nil || t2 == nil {
+		return
+	}
+	res := new(lib.ApplyBlockResults)
+	if aerr := n.FSM.ApplyTransactions(context.Background(), [][]byte{t1, t2}, res, false); aerr != nil {
+		n.FSM.Reset()
+		return
+	}
+	n.FSM.Reset()
+	st.TxCases["auth:multisig-one-approval-two-key-orderings"]++
+	if len(res.Results) == 2 {
+		sim.Direct(outDirG, map[string]any{"finding": "multisig-approval-executed-again", "kind": "one threshold approval of a multi-signature payment executed twice (the same signed content under two orderings of the member keys)",
+			"threshold": acc.threshold, "members": len(acc.members)})
+	}
+}
